@@ -57,6 +57,23 @@ static void make_buf(int id, uint8_t* b, size_t n) {
 // 128-byte-aligned situation are both enumerated instead of being left to the allocator (the library only promises 64).
 struct ABuf { uint8_t* raw; uint8_t* p; size_t n; ABuf(size_t n_, size_t off) : n(n_) { if (posix_memalign((void**)&raw, 4096, n_ + 4096)) { perror("posix_memalign"); exit(2); } p = raw + off; } ~ABuf() { free(raw); } uint8_t* data() { return p; } bool eq(const std::vector<uint8_t>& v) const { return v.size() == n && !memcmp(p, v.data(), n); } };
 
+// generator state OVERLAPPING the output buffer (the repository's own test calls fillAes1Rx4(state, 64, state)): the software and the hardware
+// instantiation must leave bit-identical memory images for every 16-byte displacement of the state against the buffer; where the state coincides
+// with a whole output block the image must also be the one the model gives (blocks from the initial state, final state written last).
+static std::string alias_case(int seed_id, size_t size, long delta) {
+	const size_t PAD = 192, TOT = size + 2 * PAD; ABuf A(TOT, 0), B(TOT, 0);
+	for (size_t i = 0; i < TOT; ++i) A.data()[i] = B.data()[i] = (uint8_t)(i * 29 + 7);
+	alignas(16) uint8_t seed[64]; make_seed(seed_id, seed);
+	uint8_t* outA = A.data() + PAD; uint8_t* outB = B.data() + PAD; memcpy(outA + delta, seed, 64); memcpy(outB + delta, seed, 64);
+	fillAes1Rx4<true>(outA + delta, size, outA); fillAes1Rx4<false>(outB + delta, size, outB);
+	if (memcmp(A.data(), B.data(), TOT)) { size_t k = 0; while (A.data()[k] == B.data()[k]) ++k; return "fillAes1Rx4 with the state at buffer" + std::string(delta < 0 ? "" : "+") + std::to_string(delta) + ": software and hardware paths leave different memory (first difference at buffer" + (k >= PAD ? "+" : "") + std::to_string((long)k - (long)PAD) + ")"; }
+	if (delta >= 0 && (size_t)delta + 64 <= size && delta % 64 == 0) {
+		std::vector<uint8_t> mo(size); alignas(16) uint8_t st[64]; memcpy(st, seed, 64); spec::fill_aes_1rx4(st, size, mo.data()); memcpy(mo.data() + delta, st, 64);
+		if (memcmp(outA, mo.data(), size)) return "fillAes1Rx4 with the state being output block " + std::to_string(delta / 64) + ": memory differs from AesGenerator1R (blocks from the initial state, final state stored last)";
+	}
+	return "";
+}
+
 // composite functions for one (seed, size, buffer image, placement); "" if all agree
 static std::string composite_case(int seed_id, size_t size, int buf_id, size_t off = 0) {
 	ABuf so(size, off), ho(size, off); std::vector<uint8_t> mo(size);
@@ -95,6 +112,7 @@ int main(int argc, char** argv) {
 	if (!args.replay.empty()) {
 		vf::Json r = vf::Json::load(args.replay); std::string d;
 		if (r.at("kind").s == "round") { auto s = vf::unhex(r.at("state").s), k = vf::unhex(r.at("rkey").s); d = round_case(s.data(), k.data()); }
+		else if (r.at("kind").s == "alias") d = alias_case((int)r.at("seed").num(), (size_t)r.at("size").num(), (long)r.at("delta").num());
 		else if (r.at("kind").s == "composite") d = composite_case((int)r.at("seed").num(), (size_t)r.at("size").num(), (int)r.at("buf").num(), r.has("off") ? (size_t)r.at("off").num() : 0);
 		else d = table_check(nullptr);
 		printf("replay: %s\n", d.empty() ? "agrees" : d.c_str()); return d.empty() ? 0 : 1;
@@ -149,13 +167,17 @@ int main(int argc, char** argv) {
 				}
 			}
 		}
+		if (cs < 4) for (size_t size : { (size_t)64, (size_t)128, (size_t)192, (size_t)256, (size_t)1024, (size_t)4096 }) for (long delta = -128; delta <= (long)size + 64; delta += 16) for (int seed : { cs, 2 + 512 + (cs % 3) }) {
+			std::string d = alias_case(seed, size, delta); R.n["alias_cases"]++;
+			if (!d.empty() && R.viol.size() < 3) viol("c12:alias", d + " (seed " + std::to_string(seed) + ", size " + std::to_string(size) + ")", vf::Json::obj().set("kind", "alias").set("seed", seed).set("size", (unsigned long long)size).set("delta", (long long)delta));
+		}
 		if (cs == 0) R.sample(vf::Json::obj().set("kind", "composite").set("seed", 0).set("size", 64).set("buf", 0));
 		return R;
 	});
 	vf::Evidence ev; ev.level = "exploration";
-	ev.coverage.set("evaluations", (unsigned long long)(total.n["round_cases"] + total.n["composite_cases"] + total.n["table_entries"]))
+	ev.coverage.set("evaluations", (unsigned long long)(total.n["round_cases"] + total.n["composite_cases"] + total.n["table_entries"] + total.n["alias_cases"]))
 		.set("distinct_nontrivial", (unsigned long long)(total.n["round_cases"] + total.n["composite_cases"])).set("exhaustive", !total.incomplete)
-		.set("rule", "single rounds: every 16-byte state with at most two non-zero bytes (all 120 position pairs x 255^2 values, all 16x255 single bytes, zero) with key 0, single-byte states with 19 keys: soft_aesenc/dec == _mm_aesenc/dec == aesenc<>/aesdec<> dispatch == FIPS-197 round computed from the GF(2^8) definition; all 2x4x256 T-table entries; composites: fillAes1Rx4, fillAes4Rx4, hashAes1Rx4, hashAndFillAes1Rx4 in both template instantiations == model, seeds {0, FF.., 512 one-hot, 3 generic} x sizes {64..4096 step 64, 4160, 8192, 65536, 256 KiB, 2 MiB (generic seeds)} x 5 buffer images x 2 buffer placements (128-byte aligned and 64 mod 128); combined step == (fingerprint of old content, refill, generator state)");
+		.set("rule", "single rounds: every 16-byte state with at most two non-zero bytes (all 120 position pairs x 255^2 values, all 16x255 single bytes, zero) with key 0, single-byte states with 19 keys: soft_aesenc/dec == _mm_aesenc/dec == aesenc<>/aesdec<> dispatch == FIPS-197 round computed from the GF(2^8) definition; all 2x4x256 T-table entries; composites: fillAes1Rx4, fillAes4Rx4, hashAes1Rx4, hashAndFillAes1Rx4 in both template instantiations == model, seeds {0, FF.., 512 one-hot, 3 generic} x sizes {64..4096 step 64, 4160, 8192, 65536, 256 KiB, 2 MiB (generic seeds)} x 5 buffer images x 2 buffer placements (128-byte aligned and 64 mod 128); combined step == (fingerprint of old content, refill, generator state); fillAes1Rx4 with the generator state overlapping the output buffer at every 16-byte displacement (6 sizes): software and hardware paths leave identical memory, and the model's image where the state is a whole output block");
 	ev.assumptions = { "the model's AES round is built from the FIPS-197 definitions (S-box from field inverse + affine map) and was checked against FIPS-197 appendix B at setup" };
 	return vf::finish(args, total, ev);
 }
